@@ -388,7 +388,7 @@ impl Entry for OneMetric {
     }
 }
 
-// @check C15 thorough timeout=7200 mem=45
+// @disabled-check (needs more than 30 GB: not registered, see DESIGN.md C15) C15 thorough timeout=7200 mem=45
 // @encodes entry::boxed::* (same as box_entry_is_transparent)
 // @bounds scripted entry of one item of ANY kind (timestamp / config / string / metric / validation error / empty value)
 // @oracle same
